@@ -140,6 +140,11 @@ def catalogue():
         Op("lt-same-scale", a.lt, lambda q, o: q < o, ["pt8", "ptf8"], "compare", "same-scale"),
         Op("lt-diff-scale", a.lt, lambda q, o: q < o, ["pt8"], "compare", "diff-scale"),
         Op("lt-plain", a.lt, lambda q, o: q < o, ["pt8", "ax0"], "compare", "plain"),
+        Op("lt-scalar", a.lt, lambda q, o: q < 0.3, ["pt8", "ptf8", "ax0"], "compare"),
+        Op("lt-0dim", a.lt, lambda q, o: q < torch.tensor(-0.2), ["pt8"], "compare"),
+        Op("lt-scalar-after-negation", a.lt, lambda q, o: (q * -1.0) < 0.3, ["pt8", "ptf8", "ax0"], "compare"),
+        Op("relu-after-negation", a.relu, lambda q, o: torch.relu(-1.0 * q), ["pt8", "ax0"], "rescale"),
+        Op("lt-same-scale-after-negation", a.lt, lambda q, o: (q * -1.0) < (o * -1.0), ["pt8"], "compare", "same-scale"),
         Op("copy_-quantized", a.copy_, lambda q, o: q.clone().copy_(o), ["pt8", "ptf8"], "move2", "diff-scale"),
         Op("alias-t-then-copy_", a.copy_, lambda q, o: _alias_copy(q, o, lambda z: z.t()), ["pt8", "ptf8"], "move2", "diff-scale"),
         Op("alias-detach-then-copy_", a.copy_, lambda q, o: _alias_copy(q, o, lambda z: z.detach()), ["pt8"], "move2", "diff-scale"),
